@@ -3,7 +3,7 @@
 # For the unmutated snapshot and for hand-made single-token mutations of a COPY of the sources placed
 # under $MUT, run the translator into a scratch Gen dir and compile Proofs/BufTie.v against the scratch
 # BufFns.v.  Expected: the baseline compiles, every semantic mutant breaks a proof obligation of
-# BufTie.v, an untranslatable edit gives TRANSLATE-ERROR (exit 2).  The cases run in parallel.
+# BufTie.v, an untranslatable edit gives TRANSLATE-ERROR (exit 3: the unit fails alone; 2: fatal).  The cases run in parallel.
 # usage: tools/buftie_selftest.sh        (needs the main tree built: coq/Proofs/ListLemmas.vo)
 ROOT=$(cd "$(dirname "$0")/.." && pwd)
 COQ=$ROOT/coq
